@@ -329,7 +329,13 @@ async fn zero_window_refusal(id: u64) -> Out {
 /// that very client must still be able to use another topic through the same connection.
 /// `finish_blocked`: one of the blocked publishers is being finished (its `finish()` cannot complete while the topic is
 /// stalled and the application keeps waiting for it) when the same client turns to topic B
+/// `outage`: after the stall, 110 more registrations queue up on topic A, then the client loses its connection: its
+/// publishers on A try to re-register (behind that queue) while the client turns to topic B
 async fn same_connection_publishers(n_pubs: usize, id: u64, finish_blocked: bool) -> Out {
+    same_connection_publishers_x(n_pubs, id, finish_blocked, false).await
+}
+
+async fn same_connection_publishers_x(n_pubs: usize, id: u64, finish_blocked: bool, outage: bool) -> Out {
     let certs = match gen_certs() {
         Ok(c) => c,
         Err(e) => return Out::Inconclusive(format!("certs: {e}")),
@@ -402,6 +408,40 @@ async fn same_connection_publishers(n_pubs: usize, id: u64, finish_blocked: bool
     if blocked < n_pubs {
         return Out::Inconclusive(format!("precondition not reached: only {} of {} publishers blocked", blocked, n_pubs));
     }
+    let mut queued_conns = vec![];
+    let mut queued_streams = vec![];
+    let mut pokes = vec![];
+    if outage {
+        for _ in 0..2 {
+            let c = match raw_connect(addr, &certs).await {
+                Ok(c) => c,
+                Err(e) => return Out::Inconclusive(format!("raw connect: {e}")),
+            };
+            let mut unanswered = 0;
+            for _ in 0..55 {
+                match c.open(Frame::RegisterSubscriber(SubscriberPayload { topic: tn_a.clone(), retention_policy: 0, operations: vec![] }), Duration::from_secs(3)).await {
+                    Ok((s, _)) => queued_streams.push(s),
+                    Err(_) => {
+                        unanswered += 1;
+                        if unanswered >= 2 {
+                            break;
+                        }
+                    }
+                }
+            }
+            queued_conns.push(c);
+        }
+        x.verif_close_connection().await;
+        // the client's publishers on A notice the loss as soon as they are used again
+        for mut p in keep.drain(..) {
+            let chunk = chunk.clone();
+            pokes.push(tokio::spawn(async move {
+                let _ = p.send(chunk).await;
+                p
+            }));
+        }
+        tokio::time::sleep(Duration::from_millis(600)).await;
+    }
     let finishing = if finish_blocked {
         let h = keep.pop().map(|p| {
             tokio::spawn(async move {
@@ -434,7 +474,12 @@ async fn same_connection_publishers(n_pubs: usize, id: u64, finish_blocked: bool
     if let Some(h) = finishing {
         h.abort();
     }
-    let suffix = if finish_blocked { "/while-finishing-a-blocked-publisher" } else { "" };
+    for h in pokes {
+        h.abort();
+    }
+    drop(queued_streams);
+    drop(queued_conns);
+    let suffix = if finish_blocked { "/while-finishing-a-blocked-publisher" } else if outage { "/after-an-outage-of-the-client" } else { "" };
     match res {
         Ok(Ok(())) => Out::Held { b_roundtrip_ms: took, queued_ok: 0 },
         Ok(Err(e)) => Out::Violated(format!("other-topic-failed/same-connection{}", suffix), format!("{} publisher streams of the stalled topic on one client connection ({} × 64 KiB accepted before they blocked); the same client could not use topic B: {}", n_pubs, total, e)),
@@ -501,15 +546,18 @@ pub fn run(rep: &mut StageReport, tier: &str, _seed: u64) {
             Err(_) => rep.inconclusive("watchdog: zero-window scenario did not finish within 90 s"),
         }
     }
-    for (k, (n_pubs, finishing)) in (if thorough { vec![(4usize, false), (10, false), (16, false), (1, true), (3, true), (10, true)] } else { vec![(10usize, false), (2, true)] }).into_iter().enumerate() {
+    for (k, (n_pubs, finishing)) in (if thorough { vec![(4usize, false), (10, false), (16, false), (1, true), (3, true), (10, true), (101, false), (103, false)] } else { vec![(10usize, false), (2, true), (101, false)] }).into_iter().enumerate() {
         rep.evaluations += 1;
         let rt = runtime(6);
-        let out = rt.block_on(async { tokio::time::timeout(Duration::from_secs(150), same_connection_publishers(n_pubs, 200 + k as u64, finishing)).await });
+        // (n_pubs > 100 encodes the outage variant with n_pubs − 100 publishers)
+        let outage = n_pubs > 100;
+        let n_pubs = if outage { n_pubs - 100 } else { n_pubs };
+        let out = rt.block_on(async { tokio::time::timeout(Duration::from_secs(150), same_connection_publishers_x(n_pubs, 200 + k as u64, finishing, outage)).await });
         drop(rt);
         match out {
             Ok(Out::Held { b_roundtrip_ms, .. }) => {
-                rep.distinct.insert(crate::common::mix(0x5A3E + finishing as u64, n_pubs as u64));
-                rep.sample(json!({"scenario": format!("{} blocked publisher streams of the stalled topic on one client connection{}; topic B used through the same connection", n_pubs, if finishing { ", one of them being finished" } else { "" }), "topic_B_round_trip_ms": b_roundtrip_ms as u64}));
+                rep.distinct.insert(crate::common::mix(0x5A3E + finishing as u64 + 2 * outage as u64, n_pubs as u64));
+                rep.sample(json!({"scenario": format!("{} blocked publisher streams of the stalled topic on one client connection{}; topic B used through the same connection", n_pubs, if finishing { ", one of them being finished" } else if outage { ", 110 registrations queued behind them, then the client's connection was cut" } else { "" }), "topic_B_round_trip_ms": b_roundtrip_ms as u64}));
             }
             Ok(Out::Violated(sig, detail)) => {
                 let replay = write_replay("C17", &sig, n_pubs as u64, json!({"property": "C17", "detail": detail}));
